@@ -15,6 +15,7 @@ RULE = ("points 0, G, -G, small multiples, random multiples, equal/opposite pair
         "every add/dbl/mul/mul_fix/mul_sim variant by name; non-trivial = distinct line whose result is not the identity")
 
 USES_GENERATED = True
+EXTRA_THEOREM_MODULES = ["RelicVerif.Lemmas.EpFormulas"]
 
 CURVES = {"base": [12, 13, 14, 15, 23, 24]}   # NIST_P256, BSI_P256, SECG_K256, SM2_P256, BN_P256, SM9_P256
 
@@ -168,11 +169,16 @@ def gen_lines(rng, cv, count):
             out.append("eps %s %s %s %s %s" % (v, ptok(rng, cv, point(rng, cv, pool)), hx(scalar(rng, cv.n)),
                                               ptok(rng, cv, point(rng, cv, pool)), hx(scalar(rng, cv.n))))
         else:
-            n_ = rng.choice([0, 1, 2, 3, 5, 17])
+            # 10/11 is the switch between the windowed and the bucket branch of ep_mul_sim_lot on endomorphism curves
+            n_ = rng.choice([0, 1, 2, 3, 5, 10, 11, 12, 17])
             toks = []
             for _ in range(n_):
                 toks += [ptok(rng, cv, point(rng, cv, pool)), hx(scalar(rng, cv.n))]
-            out.append("%s %d %s" % (rng.choice(["epl", "epl", "epd"]), n_, " ".join(toks)))
+            o = rng.choice(["epl", "epl", "epd"])
+            if n_ > 0 and rng.chance(1, 2):      # result written over one of the inputs
+                out.append("%sa %d %d %s" % (o, rng.choice([0, n_ - 1, rng.below(n_)]), n_, " ".join(toks)))
+            else:
+                out.append("%s %d %s" % (o, n_, " ".join(toks)))
     return out
 
 
